@@ -2,19 +2,22 @@
 (* trace events: [ev, id, n, ok, kind]
    "send" id n ok : send_packet(packet id) handed n datagrams to the transport; ok = (n = 1, payload = make_datagram(p),
                     deserialize(payload) = p)           "inject": the harness puts a malformed datagram on the wire
-   "recv" kind id ok : recv_packet outcome: "pkt" (ok = equals packet id) | "err" (protocol parse error)                *)
+   "recv" kind id ok : recv_packet outcome: "pkt" (ok = equals packet id) | "err" (protocol parse error) | "oserr" (a socket
+                       error reported earlier: "sockerr")                                                               *)
 EXTENDS Datagram, Json, IOUtils
 Traces == JsonDeserialize(IOEnv.TRACE_FILE)
 VARIABLES tid, l
 T == Traces[tid]
 Ev == T.events[l]
-TInit == tid \in 1..Len(Traces) /\ l = 1 /\ net = <<>> /\ nsent = 0 /\ nbad = 0 /\ out = <<>>
+TInit == tid \in 1..Len(Traces) /\ l = 1 /\ net = <<>> /\ nsent = 0 /\ nbad = 0 /\ out = <<>> /\ errs = 0 /\ nerr = 0
 IsEvent(e) == l <= Len(T.events) /\ Ev.ev = e /\ l' = l + 1 /\ UNCHANGED tid
 TSend == IsEvent("send") /\ Send /\ Ev.n = 1 /\ Ev.ok = TRUE /\ Ev.id = nsent'
 TInject == IsEvent("inject") /\ Inject
-TRecv == /\ IsEvent("recv") /\ Recv
+TSockErr == IsEvent("sockerr") /\ SockError
+TRecvOs == IsEvent("recv") /\ Ev.kind = "oserr" /\ RecvOsError
+TRecv == /\ IsEvent("recv") /\ Ev.kind # "oserr" /\ Recv
          /\ LET o == out'[Len(out')] IN o.k = Ev.kind /\ (o.k = "pkt" => (Ev.id = o.id /\ Ev.ok = TRUE))
-TNext == ((OneOutcomePerDatagram /\ PacketsInOrder) = TRUE) /\ (TSend \/ TInject \/ TRecv)
+TNext == ((OneOutcomePerDatagram /\ PacketsInOrder) = TRUE) /\ (TSend \/ TInject \/ TRecv \/ TSockErr \/ TRecvOs)
 ASSUME \A x \in 1..Len(Traces) : TLCSet(x, 0)
 Constr == TLCSet(tid, IF TLCGet(tid) > l THEN TLCGet(tid) ELSE l)
 Post == LET bad == {x \in 1..Len(Traces) : TLCGet(x) <= Len(Traces[x].events)} IN
